@@ -47,6 +47,8 @@ type Solver struct {
 	shadow     *Solver
 	Disagree   int
 	CrossCheck int
+	shadowRes  Result
+	Retries    int
 
 	Queries   int
 	SatN      int
@@ -68,6 +70,13 @@ func NewSolver(tt *TermTable, intMode bool, timeoutMs int, bin []string) (*Solve
 }
 
 func (s *Solver) SetLog(w io.Writer) { s.logw = w }
+
+func (s *Solver) Bin0() string {
+	if len(s.Bin) == 0 {
+		return "z3"
+	}
+	return s.Bin[0]
+}
 
 func (s *Solver) start() error {
 	bin := s.Bin
@@ -229,6 +238,17 @@ func (s *Solver) Check() Result {
 	t0 := time.Now()
 	s.send("(check-sat)\n(echo \"@@\")")
 	r := s.readResult()
+	if s.shadow != nil {
+		s.shadowRes = s.shadow.readResult()
+	}
+	if r == Unknown && s.shadow == nil && strings.Contains(s.Bin0(), "z3") {
+		// one retry with a longer limit: a loaded machine must not turn into an inconclusive run
+		s.send(fmt.Sprintf("(set-option :timeout %d)", 6*s.TimeoutMs))
+		s.send("(check-sat)\n(echo \"@@\")")
+		r = s.readResult()
+		s.send(fmt.Sprintf("(set-option :timeout %d)", s.TimeoutMs))
+		s.Retries++
+	}
 	s.Queries++
 	s.Time += time.Since(t0)
 	switch r {
@@ -242,7 +262,7 @@ func (s *Solver) Check() Result {
 		s.ErrorN++
 	}
 	if s.shadow != nil {
-		r2 := s.shadow.readResult()
+		r2 := s.shadowRes
 		s.CrossCheck++
 		if (r == Sat && r2 == Unsat) || (r == Unsat && r2 == Sat) {
 			s.Disagree++
